@@ -1,6 +1,6 @@
 (* One entry point for the correspondence harness: run_line parses a case, runs the model, prints the answer. *)
 From Coq Require Import List Ascii String Bool Arith ZArith.
-From SV Require Import Lib.Str Lib.Sexp Model.Types Model.Naming Model.Discover Model.Api Model.Back Model.Layout Model.FrontSmall Model.Doc Driver.Codec Driver.ApiCodec.
+From SV Require Import Lib.Str Lib.Sexp Model.Types Model.Naming Model.Discover Model.Api Model.Back Model.Layout Model.FrontSmall Model.Doc Spec.Sds Driver.Codec Driver.ApiCodec.
 Import ListNotations.
 
 Definition bad : sexp := L [T"bad-case"].
@@ -108,6 +108,17 @@ Definition run_case (x : sexp) : sexp :=
             match r with Ok ds => L [T"ok"; of_list (of_opt A) ds] | Err e => L [T"err"; sx_of_err e] end in
           L [render (cached_run root init_cstate qs'); render (uncached_run root qs')]
         | _, _ => bad end
+      | _ => bad end
+    else if tag_is "lex" cmd then
+      match args with
+      | [A text] => let s := scan st0 text in
+                    L [of_bool (lex_ok text); of_bool (s_err s); of_bool (in_code s)]
+      | _ => bad end
+    else if tag_is "escapes" cmd then
+      match args with
+      | [A text] => L [A (escape_comment_text text); A (escape_string_content text);
+                       of_bool (lex_ok (K"/**" ++ NL ++ escape_comment_text text ++ K" */"));
+                       of_bool (lex_ok (quoted (escape_string_content text)))]
       | _ => bad end
     else if tag_is "container" cmd then
       match args with
